@@ -5,6 +5,7 @@ CONSTANTS
   Width = 2
   Foreigns = FALSE
   Wraps = FALSE
+  RefWraps = FALSE
   WrapMax = 1
   ForeignVals <- ForeignValsQuick
   ForeignBase <- ForeignBaseQuick
